@@ -307,6 +307,7 @@ func (a *Real64) SetVariable(i, n, order int) error {
     return fmt.Errorf("order `%d' not supported by this type", order)
   }
   a.Alloc(n, order)
+  a.ResetDerivatives()
   if order > 0 {
     a.Derivative[i] = 1
   }
